@@ -215,6 +215,7 @@ func (x *Exec) allocRoot(st *State, base string) string {
 	n := x.freshName(base)
 	st.declare(n, "Int")
 	st.assume(sx("=", n, sx("+", st.top, "1")))
+	st.assume(sx("<=", n, "4611686018427387904")) // fewer than 2^62 objects are ever allocated
 	nt := x.freshName("top")
 	st.declare(nt, "Int")
 	st.assume(sx("=", nt, n))
